@@ -145,8 +145,9 @@ def _q17p(e0, e1, e2, e3, e4, e5, f0, f1, f2, f3, f4, f5, rc0, rc1, rc2, rc3, sf
         return r
     if r.startswith("unexpected"):
         return r
-    if LP.LAST_SAW_CANCEL[0] and (r.startswith("[C13]") or r.startswith("[C11]")):
-        return "after a cancel request: " + r
+    mine = [part for part in r.split(" | ") if part.startswith("[C13]") or part.startswith("[C11]")]
+    if LP.LAST_SAW_CANCEL[0] and mine:
+        return "after a cancel request: " + " | ".join(mine)
     return ""
 
 
